@@ -1,5 +1,29 @@
 From Coq Require Import List NArith ZArith Bool Arith Lia.
 Import ListNotations.
 Require Import Parser SBase SPrim SDir SScalar SFetch SBuf InputRefine ScanRel.
-About rwp. About Qe. About rpost. About rwp_look. About rwp_peek. About SR. About rwp_in_skip. About SR_lift. About rwp_bind.
-About rel_skip_linebreak.
+Local Open Scope nat_scope.
+Lemma SR_fields s1 s2 : SR s1 s2 ->
+  sc_mark s1 = sc_mark s2 /\ sc_tokens s1 = sc_tokens s2 /\ sc_stream_start s1 = sc_stream_start s2
+  /\ sc_stream_end s1 = sc_stream_end s2 /\ sc_adjacent s1 = sc_adjacent s2 /\ sc_ska s1 = sc_ska s2
+  /\ sc_sks s1 = sc_sks s2 /\ sc_indent s1 = sc_indent s2 /\ sc_indents s1 = sc_indents s2
+  /\ sc_flow_level s1 = sc_flow_level s2 /\ sc_tokens_parsed s1 = sc_tokens_parsed s2
+  /\ sc_token_available s1 = sc_token_available s2 /\ sc_lws s1 = sc_lws s2 /\ sc_fms s1 = sc_fms s2
+  /\ sc_ifms s1 = sc_ifms s2.
+Proof. intros H. apply erase_fields. apply SR_erase. exact H. Qed.
+Ltac sr_fields H :=
+  let E := fresh "E" in
+  pose proof (SR_fields _ _ H) as E; decompose [and] E; clear E.
+Ltac skel_cbn :=
+  cbn [sc_in sc_mark sc_tokens sc_stream_start sc_stream_end sc_adjacent sc_ska sc_sks sc_indent sc_indents
+       sc_flow_level sc_tokens_parsed sc_token_available sc_lws sc_fms sc_ifms
+       upd set_in set_mark set_tokens set_flags set_ska set_lws set_fms set_adj set_ta set_ss set_se
+       set_struct set_sks set_indent set_fl set_tp set_ifms].
+Goal forall n s1 s2, SR s1 s2 -> SR (set_mark (adv n (sc_mark s1)) s1) (set_mark (adv n (sc_mark s2)) s2).
+Proof.
+  intros n s1 s2 H. 
+  Time split.
+  Time exact (SR_rel _ _ H).
+  Time sr_fields H.
+  Time unfold erase. Time skel_cbn.
+  Time f_equal; congruence.
+Qed.
